@@ -1728,7 +1728,10 @@ impl<K: Hash + Eq, V, RH: BuildHasher, REH: BuildHasher, FH: BuildHasher, FEH: B
     fn replace(&mut self, freq_contains_key: bool) {
         let recent_evict_len = self.recent.len();
         if recent_evict_len > 0
-            && (recent_evict_len > self.p || (recent_evict_len == self.p && freq_contains_key))
+            && (recent_evict_len > self.p
+                || (recent_evict_len == self.p && freq_contains_key)
+                // nothing to take from the frequent list: fall back to the recent list
+                || self.frequent.is_empty())
         {
             match self.recent.remove_lru_in() {
                 None => None,
